@@ -470,6 +470,15 @@ class ProceduralResolver:
 		actual_receiver = receiver.impl(refs.Object).actualize()
 
 		if node.sliced:
+			if actual_receiver.type_is(tuple):
+				# a slice of a tuple keeps the elements inside the bounds; only literal (or omitted) bounds are known here
+				lower, upper, step = (key.node for key in keys)
+				bounds_known = all(isinstance(bound, (defs.Integer, defs.Empty)) for bound in (lower, upper)) and isinstance(step, defs.Empty)
+				if bounds_known:
+					begin = lower.as_a(defs.Integer).as_int if isinstance(lower, defs.Integer) else None
+					end = upper.as_a(defs.Integer).as_int if isinstance(upper, defs.Integer) else None
+					return actual_receiver.to(node, self.reflections.from_standard(tuple)).extends(*actual_receiver.attrs[begin:end])
+
 			return actual_receiver.stack(node)
 		elif receiver.impl(refs.Object).type_is(type):
 			actual_keys = [key.impl(refs.Object).actualize('type') for key in keys]
